@@ -56,9 +56,20 @@ func indexName(cols []CKey) string {
 	return strings.Join(names, ",")
 }
 
-var schemaIndexChoices = [][]string{{"name"}, {"n"}, {"name", "n"}, {"tag"}, {"tag", "x"}, {"name", "tag"}, {"x"}}
+// {"s"}, {"name","s"}, ck("s"), ck("m"): a set or a map column used whole (its value is unordered)
+var schemaIndexChoices = [][]string{{"name"}, {"n"}, {"name", "n"}, {"tag"}, {"tag", "x"}, {"name", "tag"}, {"x"}, {"s"}, {"name", "s"}}
 var clientIndexChoices = [][]CKey{{ck("name")}, {ck("tag")}, {ck("n")}, {ckk("m", "k1")}, {ckk("m", "k1"), ck("n")}, {ck("x")},
-	{ck("name"), ckk("m", "k2")}, {ck("tag"), ck("x")}, {ckk("m", "k1"), ckk("m", "k2")}}
+	{ck("name"), ckk("m", "k2")}, {ck("tag"), ck("x")}, {ckk("m", "k1"), ckk("m", "k2")}, {ck("s")}, {ck("m")}, {ck("s"), ck("n")}}
+
+// wholeCollection: the spec has a set or map column used without a key
+func wholeCollection(sp ISpec) bool {
+	for _, c := range sp.Cols {
+		if c.Key == nil && (c.Col == "s" || c.Col == "m") {
+			return true
+		}
+	}
+	return false
+}
 
 type idxConfig struct {
 	schema [][]string
@@ -145,6 +156,24 @@ func idxValOf(spec ISpec, row Row) string {
 				}
 			}
 			parts = append(parts, val.Key())
+		case v.K == 'S' && c.Key == nil:
+			seen := map[string]bool{}
+			var es []string
+			for _, a := range v.S {
+				if !seen[a.Key()] {
+					seen[a.Key()] = true
+					es = append(es, a.Key())
+				}
+			}
+			sort.Strings(es)
+			parts = append(parts, "S{"+strings.Join(es, ";")+"}")
+		case v.K == 'M' && c.Key == nil:
+			var es []string
+			for _, p := range v.M {
+				es = append(es, p[0].Key()+"="+p[1].Key())
+			}
+			sort.Strings(es)
+			parts = append(parts, "M{"+strings.Join(es, ";")+"}")
 		}
 	}
 	return "[" + strings.Join(parts, ",") + "]"
@@ -456,7 +485,7 @@ func c05History(r *Run, cfg idxConfig, batches [][]RowOpJ, stream string) bool {
 					}
 					continue
 				}
-				single := len(sp.Cols) == 1
+				single := len(sp.Cols) == 1 && !wholeCollection(sp) // (the key of a whole set or map is the code's own rendering)
 				implG := map[string][]string{}
 				for k, us := range idx {
 					key := fmt.Sprintf("%v", k)
